@@ -588,6 +588,49 @@ macro_rules! create_config {
                 }
             }
 
+            /// verif-hooks: every option as (name, value, was_set, was_set_cli, stable),
+            /// in declaration order, without touching the `accessed` cell.
+            #[cfg(feature = "verif-hooks")]
+            #[allow(unreachable_pub)]
+            pub fn verif_dump(&self) -> Vec<(&'static str, String, bool, bool, bool)> {
+                vec![
+                    $(
+                        (
+                            stringify!($i),
+                            self.$i.2.to_string(),
+                            self.$i.1,
+                            self.$i.4,
+                            self.$i.3,
+                        ),
+                    )+
+                ]
+            }
+
+            /// verif-hooks: `self.set().key(val)` (`cli = false`) or `self.set_cli().key(val)`
+            /// by option name; `false` when the key is unknown or the value does not parse.
+            #[cfg(feature = "verif-hooks")]
+            #[allow(unreachable_pub)]
+            pub fn verif_set(&mut self, cli: bool, key: &str, val: &str) -> bool {
+                match key {
+                    $(
+                        stringify!($i) => {
+                            match val.parse::<<$ty as StyleEditionDefault>::ConfigType>() {
+                                Ok(value) => {
+                                    if cli {
+                                        self.set_cli().$i(value);
+                                    } else {
+                                        self.set().$i(value);
+                                    }
+                                    true
+                                }
+                                Err(_) => false,
+                            }
+                        }
+                    )+
+                    _ => false,
+                }
+            }
+
             #[allow(unreachable_pub)]
             /// Returns `true` if the config key was explicitly set and is the default value.
             pub fn is_default(&self, key: &str) -> bool {
